@@ -77,7 +77,10 @@ fn check_fb(d: &FDisp, o: &ModelOptions, want: impl Fn(i64, i64) -> Option<u16>,
     let (x, y): (u16, u16) = (kani::any(), kani::any());
     kani::assume(x < lw && y < lh);
     let cell = oracle_fb_cell(o, x as i64, y as i64);
-    if cell == (fx, fy) {
+    // (a failed kani::assert is also assumed afterwards; the nondeterministic choice keeps the three checks independent,
+    // so that each property sees its own assertion)
+    let which: u8 = kani::any();
+    if which == 0 && cell == (fx, fy) {
         match want(x as i64, y as i64) {
             Some(c) => kani::assert(d.di.fb[fy][fx] == c, "C01: pixel is not at the rotated / mirrored / shifted position with its colour"),
             None => kani::assert(d.di.fb[fy][fx] == UNTOUCHED, "C02: a cell that was not drawn changed"),
@@ -85,10 +88,10 @@ fn check_fb(d: &FDisp, o: &ModelOptions, want: impl Fn(i64, i64) -> Option<u16>,
     }
     let inside = fx >= o.display_offset.0 as usize && fx < (o.display_offset.0 + o.display_size.0) as usize
         && fy >= o.display_offset.1 as usize && fy < (o.display_offset.1 + o.display_size.1) as usize;
-    if !inside {
+    if which == 1 && !inside {
         kani::assert(d.di.fb[fy][fx] == UNTOUCHED, "C02: controller memory outside the panel window was modified");
     }
-    if tag_ok {
+    if which == 2 && tag_ok {
         kani::assert(d.di.c08_ok(), "C08: malformed window / burst framing");
     }
 }
@@ -172,7 +175,8 @@ fn c04_fill_contiguous_colour_k_on_point_k() {
     kani::assume(fx < FW && fy < FH);
     let (x, y): (u16, u16) = (kani::any(), kani::any());
     kani::assume(x < lw && y < lh);
-    if oracle_fb_cell(&o, x as i64, y as i64) == (fx, fy) {
+    let which: u8 = kani::any();   // independent checks (a failed kani::assert is assumed afterwards)
+    if which == 0 && oracle_fb_cell(&o, x as i64, y as i64) == (fx, fy) {
         match want(x as i64, y as i64) {
             Some(c) => kani::assert(d.di.fb[fy][fx] == c, "C04: colour k is not on point k"),
             None => kani::assert(d.di.fb[fy][fx] == UNTOUCHED, "C04: a point outside the rectangle or beyond the stream was drawn"),
@@ -180,9 +184,9 @@ fn c04_fill_contiguous_colour_k_on_point_k() {
     }
     let inside = fx >= o.display_offset.0 as usize && fx < (o.display_offset.0 + o.display_size.0) as usize
         && fy >= o.display_offset.1 as usize && fy < (o.display_offset.1 + o.display_size.1) as usize;
-    if !inside { kani::assert(d.di.fb[fy][fx] == UNTOUCHED, "C02: controller memory outside the panel window was modified"); }
-    kani::assert(d.di.c08_ok(), "C08: malformed window / burst framing");
-    kani::assert(d.di.windows <= 1, "C20: a contiguous fill uses at most one address window");
+    if which == 1 && !inside { kani::assert(d.di.fb[fy][fx] == UNTOUCHED, "C02: controller memory outside the panel window was modified"); }
+    if which == 2 { kani::assert(d.di.c08_ok(), "C08: malformed window / burst framing"); }
+    if which == 3 { kani::assert(d.di.windows <= 1, "C20: a contiguous fill uses at most one address window"); }
     kani::cover!(d.di.windows == 1 && rx < 0 && ry < 0 && len == area);
     kani::cover!(d.di.windows == 1 && len < area);
 }
@@ -216,7 +220,8 @@ fn c04_fill_contiguous_plain() {
     kani::assume(fx < FW && fy < FH);
     let (x, y): (u16, u16) = (kani::any(), kani::any());
     kani::assume(x < lw && y < lh);
-    if oracle_fb_cell(&o, x as i64, y as i64) == (fx, fy) {
+    let which: u8 = kani::any();   // independent checks (a failed kani::assert is assumed afterwards)
+    if which == 0 && oracle_fb_cell(&o, x as i64, y as i64) == (fx, fy) {
         match want(x as i64, y as i64) {
             Some(c) => kani::assert(d.di.fb[fy][fx] == c, "C04: colour k is not on point k"),
             None => kani::assert(d.di.fb[fy][fx] == UNTOUCHED, "C04: a point outside the rectangle or beyond the stream was drawn"),
@@ -224,9 +229,9 @@ fn c04_fill_contiguous_plain() {
     }
     let inside = fx >= o.display_offset.0 as usize && fx < (o.display_offset.0 + o.display_size.0) as usize
         && fy >= o.display_offset.1 as usize && fy < (o.display_offset.1 + o.display_size.1) as usize;
-    if !inside { kani::assert(d.di.fb[fy][fx] == UNTOUCHED, "C02: controller memory outside the panel window was modified"); }
-    kani::assert(d.di.c08_ok(), "C08: malformed window / burst framing");
-    kani::assert(d.di.windows <= 1, "C20: a contiguous fill uses at most one address window");
+    if which == 1 && !inside { kani::assert(d.di.fb[fy][fx] == UNTOUCHED, "C02: controller memory outside the panel window was modified"); }
+    if which == 2 { kani::assert(d.di.c08_ok(), "C08: malformed window / burst framing"); }
+    if which == 3 { kani::assert(d.di.windows <= 1, "C20: a contiguous fill uses at most one address window"); }
     kani::cover!(d.di.windows == 1 && rx < 0 && ry < 0 && len == area);
     kani::cover!(d.di.windows == 1 && len < area);
 }
